@@ -235,7 +235,10 @@ func execCrash(t *testing.T, c *sim.Case, prop string) *sim.Result {
 		// tieAfter[i]: keys that had an equal-version tie below L0 at the end of some operation <= i
 		tieAfter := make([]map[string]bool, len(c.Ops))
 		w.FS.BeforeMutation = func(ev sim.FSEvent, torn int64) {
-			if !cutting || ev.Seq < skip || ev.Seq%every != phase%every || len(images) >= maxImg {
+			// The switch of the CURRENT pointer (manifest creation and rewrite) is a rare
+			// event with several steps: always cut there, whatever the sampling phase.
+			rare := ev.Class == "current" && len(images) < maxImg+6 && ev.Seq >= 8
+			if !cutting || (!rare && (ev.Seq < skip || ev.Seq%every != phase%every || len(images) >= maxImg)) {
 				return
 			}
 			if ev.Class == "lock" {
@@ -379,6 +382,7 @@ var rejected [][]batchWrite
 func phaseOf(ev sim.FSEvent) string { return ev.Op + "_" + ev.Class }
 
 func checkImage(t *testing.T, c *sim.Case, res *sim.Result, prop string, n int, img *crashImage, batches [][]batchWrite, plain bool, post []sim.Op, ties map[string]bool) {
+	nv0 := len(res.Violations) // violations reported before this image
 	iw := &World{T: t, C: c, Res: res, Dir: img.dir}
 	iw.FS = sim.NewSimFS(img.dir)
 	if os.Getenv("VERIF_IMGTRACE") != "" {
@@ -537,6 +541,54 @@ func checkImage(t *testing.T, c *sim.Case, res *sim.Result, prop string, n int, 
 				}
 			}
 		}
+	}
+	if prop == "C10" && n%2 == 0 && len(res.Violations) == nv0 {
+		// A second life on the recovered directory: new writes (keys of their own),
+		// memtable rotations, flushes and a compaction, then a clean reopen. Whatever
+		// the first recovery produced must still be there: file ids, log pointers and
+		// value-log heads handed out after a recovery must not collide with what the
+		// recovered state already owns.
+		before := dump
+		nk := int(c.CfgInt("keys", 3))
+		track := func() { // the known tie / version-order defects can arise in the second life too
+			if plain {
+				tieKeys(iw, nk, tied)
+			} else {
+				invKeys(iw, nk, tied)
+			}
+		}
+		for j := 0; j < 3; j++ {
+			key := []byte(fmt.Sprintf("second-life-%d-%d", n, j))
+			if err := iw.DB.SetCF(kv.CFDefault, key, MakeValue(fmt.Sprintf("x%d.%d:", n, j), int64(2+j), iw.Opt.ValueThreshold)); err != nil {
+				break
+			}
+			synctest.Wait()
+			iw.Maint(sim.Op{K: "rotate"})
+			iw.Maint(sim.Op{K: "flushall"})
+			track()
+		}
+		iw.Maint(sim.Op{K: "compact", A: 0})
+		track()
+		iw.Maint(sim.Op{K: "compactonce"})
+		track()
+		iw.Maint(sim.Op{K: "flushall"})
+		track()
+		_ = iw.Close()
+		if err := iw.Open(img.dir); err != nil {
+			res.Violate(n, "second_reopen_failed", nil, "%s: after a second life: %v", where, err)
+			return
+		}
+		var after []DumpEntry
+		for _, d := range Dump(iw) {
+			if !strings.HasPrefix(d.Key, "second-life-") {
+				after = append(after, d)
+			}
+		}
+		track()
+		res.Faults["second_life_after_recovery"]++
+		DiffDumps(iw, "second_life_changed_contents", func(d DumpEntry) map[string]string {
+			return tieSig(map[string]string{"api": sig["api"], "vlog_gc_ran": sig["vlog_gc_ran"]}, fmt.Sprintf("%d/%s", d.CF, d.Key))
+		}, before, after, where+": after new writes, flushes, a compaction and a clean reopen")
 	}
 	if prop == "C11" {
 		// Background work alone must not change the contents of a reopened database.
